@@ -1,0 +1,111 @@
+//! Verification hooks (compiled only with `--cfg jgilchrist_tcheran_verif`).
+//!
+//! * Poll control: the stop flag can be made to read true from the k-th time it is loaded, and
+//!   the number of loads is counted.
+//! * Forced schedules: named steps of the UCI input thread and of the search threads can be made
+//!   to happen in a prescribed total order, and every step is logged with a sequence number taken
+//!   under the same lock, after the step has taken effect.
+//!
+//! Without `TCHERAN_VERIF_SCHEDULE` / `TCHERAN_VERIF_TRACE` in the environment and without a
+//! configured countdown every entry point returns immediately.
+
+use std::io::Write;
+use std::sync::atomic::{AtomicI64, AtomicU64, Ordering};
+use std::sync::{Condvar, Mutex, OnceLock};
+
+static STOP_AT_POLL: AtomicI64 = AtomicI64::new(0);
+static POLLS: AtomicU64 = AtomicU64::new(0);
+
+/// Make the stop flag read true from the `k`-th load on (`k <= 0` disables), and reset the counter.
+pub fn set_stop_at_poll(k: i64) {
+    STOP_AT_POLL.store(k, Ordering::SeqCst);
+    POLLS.store(0, Ordering::SeqCst);
+}
+
+/// Number of loads of the stop flag since the last `set_stop_at_poll`.
+pub fn polls() -> u64 {
+    POLLS.load(Ordering::SeqCst)
+}
+
+/// Called where the stop flag is loaded. Returns true if the flag must read true.
+pub fn poll() -> bool {
+    let n = POLLS.fetch_add(1, Ordering::SeqCst) + 1;
+    let k = STOP_AT_POLL.load(Ordering::SeqCst);
+    k > 0 && n >= k as u64
+}
+
+struct Sched {
+    steps: Vec<String>,
+    cursor: usize,
+    seq: u64,
+    out: Option<std::fs::File>,
+    searches: u64,
+}
+
+struct Shared {
+    m: Mutex<Sched>,
+    v: Condvar,
+}
+
+fn shared() -> &'static Shared {
+    static S: OnceLock<Shared> = OnceLock::new();
+    S.get_or_init(|| {
+        let steps = std::env::var("TCHERAN_VERIF_SCHEDULE")
+            .ok()
+            .and_then(|p| std::fs::read_to_string(p).ok())
+            .map(|s| s.split_whitespace().map(ToString::to_string).collect())
+            .unwrap_or_default();
+        let out = std::env::var("TCHERAN_VERIF_TRACE")
+            .ok()
+            .and_then(|p| std::fs::File::create(p).ok());
+        Shared {
+            m: Mutex::new(Sched {
+                steps,
+                cursor: 0,
+                seq: 0,
+                out,
+                searches: 0,
+            }),
+            v: Condvar::new(),
+        }
+    })
+}
+
+/// A fresh number for a search thread (1, 2, ...), taken under the scheduler's lock.
+pub fn next_search_id() -> u64 {
+    let mut g = shared().m.lock().unwrap();
+    g.searches += 1;
+    g.searches
+}
+
+/// Block until `label` is the step under the cursor. Returns at once when there is no schedule,
+/// when it is exhausted, or when `label` does not occur in the remaining schedule.
+pub fn gate(label: &str) {
+    let s = shared();
+    let mut g = s.m.lock().unwrap();
+    loop {
+        if g.cursor >= g.steps.len() || g.steps[g.cursor] == label {
+            return;
+        }
+        if !g.steps[g.cursor..].iter().any(|x| x == label) {
+            return;
+        }
+        g = s.v.wait(g).unwrap();
+    }
+}
+
+/// The step has taken effect: log it, advance the cursor if it was the scheduled step, wake waiters.
+pub fn done(label: &str) {
+    let s = shared();
+    let mut g = s.m.lock().unwrap();
+    g.seq += 1;
+    let seq = g.seq;
+    if let Some(f) = g.out.as_mut() {
+        let _ = writeln!(f, "{{\"seq\":{seq},\"ev\":\"{label}\"}}");
+        let _ = f.flush();
+    }
+    if g.cursor < g.steps.len() && g.steps[g.cursor] == label {
+        g.cursor += 1;
+    }
+    s.v.notify_all();
+}
